@@ -23,7 +23,7 @@ ASSUMPTIONS = [
     "for the '= rainfed' transformations the base run is the same configuration with the rainfed strategy",
     "field-management transformations are applied either to the in-season or to the fallow field management object (drawn); for the fallow object the off-season is simulated so that it is in force on some days",
 ]
-BUDGET = {"quick": 170, "thorough": 2600}
+BUDGET = {"quick": 240, "thorough": 2600}
 PROFILE = gen.profile(seasons=(1, 2), max_days=520, p_gdd=0.25, p_custom_soil=0.2, p_gw=0.15, p_fm=0.6, p_ffm=0.2,
                       storms=(1, 5), rain=(("dry", 1), ("mid", 2), ("wet", 2)), p_harvest=0.0)
 KINDS = ["mulch_off", "bunds_off", "cn_pct_off", "other_strategy_params", "rainfed_eff", "mulch_neutral", "irr_neutral", "harvest_default"]
